@@ -65,6 +65,7 @@ def run(ctx):
     ctx.rule("R15.8", "every scanner loop that re-reads its look-ahead character inside the body can only go round while a test implying `c != EOF` holds (c != EOF, c == 'x', isX(c), c >= 0): at end of input it exits")
     ctx.rule("R15.9", "a cursor p into a string X is never used as a position (X[p], X.substr(p), X.compare(p,..), handed back through a reference parameter) after an increment that was not preceded by a test implying p < X.size(), unless such a test lies in between")
     ctx.rule("R15.10", "CPPPreprocessor::_infile is null once the last input file has been popped (get() tests for it); every other dereference of _infile is behind a test that it is not null")
+    ctx.rule("R15.11", "every loop of the preprocessor that consumes tokens can only go round while a test implying `not at end of input` holds (_state != S_eof, !token.is_eof(), token._token == <a real token>)")
     ctx.rule("R15.7", "macro expansion excludes the macro being expanded: nested_ignores.insert(manifest) before the recursive expansion; the pushed expansion suppresses its own macro")
 
     # ------------------------------------------------------------ R15.1
@@ -190,6 +191,7 @@ def run(ctx):
     ctx.info("R15.2: %d position arguments that are loop indices / find() results were enumerated, not judged" % n_not)
 
     scanner_loops(ctx)
+    token_loops(ctx)
     infile_derefs(ctx)
     string_cursors(ctx, thorough)
 
@@ -737,4 +739,75 @@ def infile_derefs(ctx):
     if not tested:
         ctx.broken("R15.10: no `_infile == nullptr` test found any more: the premise (get() leaves _infile null) must be re-read")
     ctx.floor("R15.10", "_infile dereferences", n, 3)
+
+
+
+
+TOKEN_READS = {"get_next_token", "internal_get_next_token", "peek_next_token", "parse_type", "parse_const_expr", "parse_expr", "skip_to_end_nested", "skip_to_angle_bracket"}
+
+
+def token_loops(ctx):
+    """R15.11 (termination at end of input, token level): once the input is exhausted every token read returns the
+    EOF token and sets _state = S_eof; a loop that keeps reading tokens must test for that on every round."""
+    db = ctx.db
+    n = 0
+    for f in db.functions:
+        if not f.file.endswith("cppPreprocessor.cxx"):
+            continue
+        cfg = f.cfg
+        for lp in f.walk():
+            if lp.get("k") not in ("while", "do", "for"):
+                continue
+            reads = [c for c in walk(lp.get("body") or {}) if c.get("k") == "call" and callee_short(c) in TOKEN_READS]
+            if not reads:
+                continue
+            n += 1
+
+            def not_at_eof(atom, truth):
+                if atom.get("k") == "call" and callee_short(atom) == "is_eof":
+                    return not truth
+                c = G.cmp_atom(atom)
+                if not c:
+                    return False
+                op, a, b = c
+                if not truth:
+                    op = G.NEG[op]
+                for u, v, o in ((a, b, op), (b, a, G.SWAP[op])):
+                    fu = field_of(u) or ""
+                    vv = strip_casts(peel(v))
+                    if fu.endswith("CPPPreprocessor::_state") and vv is not None and vv.get("k") == "ref" and vv.get("n", "").endswith("S_eof"):
+                        return o == "!="
+                    if fu.endswith("CPPToken::_token"):
+                        k = const_int(v)
+                        if k is None and vv is not None and vv.get("k") == "ref" and vv.get("dk") == "enumc":
+                            k = vv.get("v")
+                        if k is not None and ((o == "==" and k != 0) or (o == "!=" and k == 0)):
+                            return True
+                return False
+            cut = set(G.edges_where(f, not_at_eof))
+            leaf = lp.get("c")
+            while leaf is not None:
+                q = peel(leaf)
+                if q is not None and q.get("k") == "bin" and q.get("op") in ("&&", "||"):
+                    leaf = q["x"]
+                elif q is not None and q.get("k") == "un" and q.get("op") == "!":
+                    leaf = q["e"]
+                else:
+                    leaf = q
+                    break
+            anchors = list(reads) + ([leaf] if leaf is not None and lp.get("k") != "do" else [])
+            bad = None
+            for x in anchors:
+                loc = cfg.locate(x)
+                if loc is None:
+                    continue
+                seen = set()
+                for idx, s0 in enumerate(cfg.blocks[loc[0]].succs):
+                    if s0 is not None and (loc[0], idx) not in cut:
+                        seen |= cfg.reachable(s0, cut_edges=cut)
+                if loc[0] in seen:
+                    bad = x
+            ctx.ob("R15.11", "%s|loop@%s" % (f.name, _norm(show(lp.get("c")))[:50] if lp.get("c") else lp["k"]), bad is None, f.loc(lp),
+                   "the token loop %s" % ("cannot go round at end of input" if bad is None else "can go round again at end of input: no test of _state / the token against EOF lies on the cycle through `%s`" % show(bad)[:40]))
+    ctx.floor("R15.11", "token-consuming loops", n, 5)
 
